@@ -14,6 +14,10 @@ use vcore::case::{gen_case, Case, GenOpts};
 use vcore::report::{Report, Violation};
 use vcore::rng::Rng;
 
+fn s_l(c: &Case) -> f64 {
+    c.lmax()
+}
+
 fn canon(d: [usize; 3]) -> [usize; 3] {
     let k = (0..3).min_by_key(|&i| d[i]).unwrap();
     [d[k], d[(k + 1) % 3], d[(k + 2) % 3]]
@@ -236,7 +240,12 @@ pub fn one_c15(prop: &str, c: &Case, rep: &mut Report) {
                     let (a, w) = c.norm_box();
                     let cb = CellBuilder::new(&c.pts, a, w, dimn(3), c.periodic);
                     let mut r = Rng::stream("C15clip", &[c.hash(), i as u64]);
-                    let vtx = &plain.vertices[r.below(plain.vertices.len())];
+                    // a vertex that does not coincide with the generator (a generator on a box corner is a vertex)
+                    let far: Vec<&meshless_voronoi::Vertex> = plain.vertices.iter().filter(|v| v.loc.distance(plain.loc) > 1e-6 * s_l(c)).collect();
+                    if far.is_empty() {
+                        continue;
+                    }
+                    let vtx = far[r.below(far.len())];
                     let n = (plain.loc - vtx.loc).normalize();
                     let p = 0.5 * (plain.loc + vtx.loc);
                     let res = guarded(|| {
@@ -274,8 +283,20 @@ pub fn one_c15(prop: &str, c: &Case, rep: &mut Report) {
 pub fn c15(a: &Args, rep: &mut Report) {
     rep.rule = "cases = seeded 3D inputs of the conditioned families (periodic or not, one third partial): every ConvexCell<WithFaces> is walked (vertices on their planes / inside all half spaces / in exactly three faces; faces simple, planar, convex, counter-clockwise, shoelace area = AreaIntegral; every edge shared by two faces in opposite direction; V - E + F = 2; accessors vs face integrals), every 4th cell goes through with_faces -> discard_faces -> with_faces and is clipped again; plus 1D/2D inputs on which with_faces must be rejected; distinct = distinct hash of (input, mask); non-trivial = at least one cell walked / one rejection checked".into();
     rep.assumptions = vec!["tolerance model of DESIGN 5.3".into()];
+    if is_miri_leg(a) {
+        // the unchecked Option accessors and the TypeId-guarded transmute under the UB interpreter
+        for k in 0..2 {
+            let mut c = miri_case(a.seed, k);
+            if c.dim != 3 && k == 0 {
+                c = miri_case(a.seed + 1, 6 - (a.seed + 1) % 6);
+            }
+            one_c15("C15", &c, rep);
+            rep.count("miri_inputs_run", 1);
+        }
+        return;
+    }
     let szs: Vec<usize> = if a.tier == "thorough" { vec![1, 2, 3, 4, 5, 8, 13, 27, 50, 100, 200, 400] } else { vec![1, 2, 3, 4, 5, 8, 13, 27, 50, 100] };
-    let n = ncases(a, 500, 20000);
+    let n = ncases(a, 3000, 60000);
     run_parallel(rep, n, budget(a, 100., 900.), |k, rep| {
         let o = GenOpts {
             sizes: &szs,
@@ -463,7 +484,7 @@ pub fn c18(a: &Args, rep: &mut Report) {
     rep.rule = "cases = seeded 3D inputs (uniform, exact lattices with large tie sets, clusters; periodic or not); for 3 cells per input the production clip sequence is replayed step by step with the real clip primitive; before every clip that removes vertices the vertex array is permuted (ALL orders of the removed set for <= 5 removed vertices, 8-40 random full permutations otherwise) and the plane triples rotated, and the canonical result / volume / closedness compared; distinct = distinct input hash; non-trivial = at least one clip removing >= 2 vertices was permuted".into();
     rep.assumptions = vec!["removed sets of more than 5 vertices are sampled, not enumerated".into()];
     let szs: Vec<usize> = if a.tier == "thorough" { vec![2, 3, 5, 8, 13, 27, 64, 125, 300] } else { vec![2, 3, 5, 8, 13, 27, 64, 125] };
-    let n = ncases(a, 600, 12000);
+    let n = ncases(a, 2000, 30000);
     run_parallel(rep, n, budget(a, 100., 900.), |k, rep| {
         let o = GenOpts {
             sizes: &szs,
